@@ -72,9 +72,29 @@ def coq_files():
     return sorted(out)
 
 
-def scan_forbidden():
+def closure_dirs(coq_dir):
+    """directories of the development a property depends on: Common, gen, its own
+    directory and every other Cxx directory its files import (transitively)"""
+    seen, todo = set(), [coq_dir]
+    while todo:
+        d = todo.pop()
+        if d in seen or not os.path.isdir(os.path.join(COQ, d)):
+            continue
+        seen.add(d)
+        for f in os.listdir(os.path.join(COQ, d)):
+            if f.endswith(".v"):
+                txt = open(os.path.join(COQ, d, f), errors="replace").read()
+                for m in re.finditer(r"\b(C\d\d+)\.[A-Za-z]", txt):
+                    todo.append(m.group(1))
+    return seen | {"Common", "gen"}
+
+
+def scan_forbidden(coq_dir=None):
     hits = []
+    dirs = closure_dirs(coq_dir) if coq_dir else None
     for f in coq_files():
+        if dirs is not None and os.path.relpath(f, COQ).split(os.sep)[0] not in dirs:
+            continue
         txt = open(f, errors="replace").read()
         # strip comments (non-nested approximation is enough: we only flag code)
         code = re.sub(r"\(\*.*?\*\)", " ", txt, flags=re.S)
@@ -115,6 +135,15 @@ def coq_build(targets, clean=False, timeout=3000):
             sh("make clean", cwd=COQ)
             write_coqproject()
         rc, out = sh("timeout %d make -j16 %s" % (timeout, " ".join(targets)), cwd=COQ, timeout=timeout + 60)
+        if rc != 0 and "No rule to make target" in out:
+            # stale dependency file mentioning a .v that no longer exists: rebuild it once
+            for f in (".Makefile.d", "Makefile", "Makefile.conf", "_CoqProject"):
+                try:
+                    os.remove(os.path.join(COQ, f))
+                except OSError:
+                    pass
+            write_coqproject()
+            rc, out = sh("timeout %d make -j16 %s" % (timeout, " ".join(targets)), cwd=COQ, timeout=timeout + 60)
         return rc == 0, out
 
 
@@ -260,7 +289,7 @@ def run_check(cfg, tier, seed, replay=None):
         props_v = os.path.join(COQ, cfg["coq_dir"], "Properties.v")
         theorems = parse_theorems(props_v)
         deps_vo = ["%s/%s.vo" % (cfg["coq_dir"], n) for n in cfg.get("extra_vo", ["Harness", "Examples"])]
-        hits = scan_forbidden()
+        hits = scan_forbidden(None if os.environ.get('VERIF_GLOBAL_SCAN') == '1' else cfg['coq_dir'])
         if hits:
             violations.append(("unproved", {"what": "forbidden construct in Coq sources", "hits": hits}))
         ok, out = coq_build(deps_vo + ["%s/Properties.vo" % cfg["coq_dir"]], clean=(tier == "thorough" and os.environ.get("VERIF_NO_CLEAN") != "1"))
